@@ -41,6 +41,7 @@ def literal_keys_read(f, dictname="results"):
 
 
 def run(ctx):
+    ctx.attempt(save_restore_round_trip_rule, ctx)
     from ..shared import mutable_default_rule as _mutable_default_rule
 
     # 'later solves never alter stored iterations' / 'fields ... that were current when iteration i was saved': nothing a
@@ -561,3 +562,96 @@ def restore_fields_rule(ctx, rid="R15.14"):
                 r.fail(f.qualname, f"restore:{label}", f.file, f.lineno, f"{ci.name}.Set_Iter", f"{algo} scheme, iteration {label}: {bad}")
             else:
                 r.ok(f"{ci.name} ({algo}), iteration {label}: every field restored")
+
+
+def save_restore_round_trip_rule(ctx, rid="R15.16"):
+    """'brings back exactly the fields ... that were current when iteration i was saved': for every simulation class that
+    can run a time scheme (its element system has a C slot -> first-order scheme, an M slot -> second-order schemes), the
+    pair Save_Iter / Set_Iter is interpreted as a ROUND TRIP under each scheme the class can run: the committed
+    displacement-like field, its rate and (second order) its second rate are distinct symbolic arrays; what Save_Iter
+    hands to the base class is fed back to Set_Iter, which must give _Set_solutions the same arrays -- not zeros, not
+    nothing -- for every field the scheme carries from one step to the next."""
+    from ..xeval import Interp, XObj, EnumVal, Opaque, XRaise, FuncInfo, _Bound
+    from ..xarray import XArray
+    from ..alg import Poly
+
+    repo = ctx.repo
+    simu = repo.cls(SIMU)
+    algo_cls = repo.cls("EasyFEA.Simulations.Solvers.AlgoType")
+    members = repo.enum_members(algo_cls.qualname)
+    r = ctx.rule(rid, "Save_Iter then Set_Iter is the identity on (u, v) under a first-order scheme and on (u, v, a) under a second-order scheme, for every simulation class whose element system has the corresponding C / M slot", min_instances=8)
+    U, V, A = (XArray((4,), [Poly.var(f"{n}{i}") for i in range(4)]) for n in "uva")
+
+    def capability(ci):
+        """(has C slot, has M slot) from the 4-tuples Construct_local_matrix_system builds"""
+        c = m = False
+        for k in [ci] + [b for b in ci.mro if b is not simu and b.qualname.startswith("EasyFEA.Simulations")]:
+            f = k.methods.get("Construct_local_matrix_system")
+            if f is None:
+                continue
+            tuples = []
+            for n in ast.walk(f.node):
+                if isinstance(n, ast.Assign) and isinstance(n.targets[0], ast.Subscript) and isinstance(n.value, ast.Tuple) and len(n.value.elts) == 4:
+                    tuples.append(n.value)
+                elif isinstance(n, ast.Return) and isinstance(n.value, ast.Dict):
+                    tuples += [v for v in n.value.values if isinstance(v, ast.Tuple) and len(v.elts) == 4]
+            for t in tuples:
+                isnone = lambda e: isinstance(e, ast.Constant) and e.value is None
+                c = c or not isnone(t.elts[1])
+                m = m or not isnone(t.elts[2])
+            break
+        return c, m
+
+    for ci in sorted(repo.subclasses(simu), key=lambda c: c.qualname):
+        fs, fr = ci.methods.get("Save_Iter"), ci.methods.get("Set_Iter")
+        if fs is None or fr is None or fs.cls is not ci:
+            continue
+        hasC, hasM = capability(ci)
+        schemes = ([("parabolic", 2)] if hasC else []) + ([("newmark", 3), ("midpoint", 3)] if hasM else [])
+        for algo, nfields in schemes:
+            r.instance(fn=fs.qualname)
+            saved, got = {}, []
+            ev = EnumVal(algo_cls, algo, members[algo])
+
+            def hook(fn, args, kwargs, saved=saved):
+                fi = fn.finfo if isinstance(fn, _Bound) else fn if isinstance(fn, FuncInfo) else None
+                if fi is not None and fi.cls is simu and fi.name == "Save_Iter":
+                    saved.update(args[0] if args else kwargs.get("iter", {}))
+                    return None
+                if fi is not None and fi.cls is simu and fi.name == "Set_Iter":
+                    return dict(saved)
+                return NotImplemented
+
+            attrs = {"algo": ev, "problemType": Opaque("pt"), "_Get_u_n": lambda pt=None: U, "_Get_v_n": lambda pt=None: V, "_Get_a_n": lambda pt=None: A,
+                     "_Set_solutions": lambda pt, u, v=None, a=None, got=got: got.append((u, v, a))}
+            obj = XObj(ci, attrs)
+            for nm in list(ci.class_attrs) + [k for c in ci.mro for k in c.methods]:
+                pass
+            # private per-class extras (e.g. the quadrature point counts of HyperElastic) are absent
+            for c in ci.mro:
+                for an in ("__nPts_e",):
+                    obj.attrs.setdefault(c.mangle(an), None)
+            I = Interp(repo)
+            I.call_hook = hook
+            try:
+                I.call_function(fs, [], self_obj=obj)
+                I.call_function(fr, [0], self_obj=obj)
+            except XRaise as e:
+                r.fail(fs.qualname, f"round-trip:{ci.name}:{algo}", fs.file, fs.lineno, f"{ci.name}.Save_Iter", f"{algo} scheme: raises {e}")
+                continue
+            bad = None
+            if not got:
+                bad = "Set_Iter does not hand the restored fields to _Set_solutions"
+            else:
+                u, v, a = got[-1]
+                same = lambda x, y: isinstance(x, XArray) and list(x.data) == list(y.data)
+                if not same(u, U):
+                    bad = "the restored primary field is not the saved one"
+                elif not same(v, V):
+                    bad = f"the rate field restored under the {algo} scheme is {'absent' if v is None else 'not the saved one (zeros?)'}: Save_Iter stores {sorted(saved)} only -- the velocity the scheme carries into the next step is lost by a restore"
+                elif nfields == 3 and not same(a, A):
+                    bad = f"the second rate restored under the {algo} scheme is {'absent' if a is None else 'not the saved one'}: Save_Iter stores {sorted(saved)} only"
+            if bad:
+                r.fail(fs.qualname, f"round-trip:{ci.name}:{algo}", fs.file, fs.lineno, f"{ci.name}.Save_Iter", f"{ci.name}, {algo} scheme: {bad}: restoring an iteration (even the current one) changes the steps that follow, and rate results queried for iteration i are not those obtained at the time")
+            else:
+                r.ok(f"{ci.name}, {algo}: Save_Iter -> Set_Iter restores {'(u, v, a)' if nfields == 3 else '(u, v)'}")
